@@ -206,6 +206,16 @@ def _tmpinst_cases():
                 yield {"objs": [{"k": "in"}, {"k": ok}], "sites": [s1] + sites[1:]}
 
 
+def _reset_cases():
+    """contexts with a reset: the generated reset branch of the process assigns every defaulted signal the context writes"""
+    for ok in ("sig", "out"):
+        for acc in (["whole"], ["slice", 1, 0]):
+            for k, rd in (("always", "conc"), ("always", "seq"), ("seq", "conc")):
+                yield {"objs": [{"k": ok}], "sites": [{"k": k, "reset": True, "acts": [[0, "w", acc]]}, {"k": rd, "acts": [[0, "r", ["whole"]]]}]}
+            yield {"objs": [{"k": ok}], "sites": [{"k": "always", "reset": True, "acts": [[0, "r", acc]], "body": [[0, "w", acc]]},
+                                                   {"k": "conc", "acts": [[0, "r", ["whole"]]]}]}
+
+
 def _inlvhdl_cases():
     """one driver is an inline VHDL statement (flat, nested once, nested twice) in a context; the other site writes or
     reads the same object; targets: signal, out port, in port"""
@@ -254,6 +264,7 @@ def enumerate(shard):  # noqa: A001
         return
     if shard.get("space") == "tmpinst":
         yield from _tmpinst_cases()
+        yield from _reset_cases()
         return
     stride = int(shard.get("stride", 1))
     lo, hi = shard["lo"], shard["hi"]
@@ -303,6 +314,8 @@ def _cases(draw):
             cand = [oi for oi in range(no) if objs[oi]["k"] != "tmp"]
             if cand:
                 s["extra"] = [[draw(st.sampled_from(cand)), draw(_ACC)] for _ in range(draw(st.integers(1, 2)))]
+        if k in ("seq", "always") and draw(st.integers(0, 3)) == 0:
+            s["reset"] = True
         if k in ("always", "always_inline") and draw(st.booleans()):
             body = []
             for oi in range(no):
@@ -352,6 +365,8 @@ def _src(acc):
 def render(case):
     objs, sites = case["objs"], case["sites"]
     pushed = {oi for s_ in sites for oi, rw, _ in list(s_["acts"]) + list(s_.get("body", [])) if rw == "wp"}
+    # objects written in a context that has a reset get a default value (only those take part in the reset)
+    pushed |= {oi for s_ in sites if s_.get("reset") for oi, rw, _ in list(s_["acts"]) + list(s_.get("body", [])) if "w" in rw}
     L = []
     w = L.append
     w("from __future__ import annotations")
@@ -408,6 +423,7 @@ def render(case):
     depth = int(case.get("depth", 1))
     w(f"class {'Top' if depth == 1 else 'Core'}(Entity):")
     w("    clk = Port.input(Bit)")
+    w("    rst = Port.input(Bit)")
     w("    d4 = Port.input(BitVector[4])")
     w("    e4 = Port.input(BitVector[4])")
     w("    d1 = Port.input(Bit)")
@@ -492,7 +508,7 @@ def render(case):
     for si, s in builtins.enumerate(sites):
         k = s["k"]
         if k == "seq":
-            w("        @std.sequential(std.Clock(self.clk))")
+            w("        @std.sequential(std.Clock(self.clk)" + (", std.Reset(self.rst))" if s.get("reset") else ")"))
             w(f"        def site{si}():")
             L.extend(stmts(si, "a", s["acts"], " " * 12))
         elif k == "conc":
@@ -500,7 +516,7 @@ def render(case):
             w(f"        def site{si}():")
             L.extend(stmts(si, "a", s["acts"], " " * 12))
         elif k == "always":
-            w("        @std.sequential(std.Clock(self.clk))")
+            w("        @std.sequential(std.Clock(self.clk)" + (", std.Reset(self.rst))" if s.get("reset") else ")"))
             w(f"        def site{si}():")
             if s.get("body"):
                 L.extend(stmts(si, "b", s["body"], " " * 12))
@@ -556,13 +572,14 @@ def render(case):
         w("")
     w("        pass")
     # wrappers: the placement is the architecture of a sub-entity (hierarchy depth 2 or 3)
-    pnames = ["clk", "d4", "e4", "d1", "sel"] + [f"p{o['k']}{oi}" for oi, o in builtins.enumerate(objs) if o["k"] in ("in", "out")]
+    pnames = ["clk", "rst", "d4", "e4", "d1", "sel"] + [f"p{o['k']}{oi}" for oi, o in builtins.enumerate(objs) if o["k"] in ("in", "out")]
     inner = "Core"
     for lvl in range(depth - 1):
         name = "Top" if lvl == depth - 2 else "Mid"
         w("")
         w(f"class {name}(Entity):")
         w("    clk = Port.input(Bit)")
+        w("    rst = Port.input(Bit)")
         w("    d4 = Port.input(BitVector[4])")
         w("    e4 = Port.input(BitVector[4])")
         w("    d1 = Port.input(Bit)")
@@ -661,16 +678,18 @@ def expectation(case):
     touched = max((len(u) for u in users.values()), default=0)
     # situations the spec oracle does not decide but which matter for the text oracle
     same_ctx_double = False
+    always_reset = False
     var_in_always = False
     for s in sites:
         if s["k"] == "always":
             wa = {oi for oi, rw, _ in s["acts"] if "w" in rw and objs[oi]["k"] != "tmp"}
             wb = {oi for oi, rw, _ in s.get("body", []) if "w" in rw and objs[oi]["k"] != "tmp"}
             same_ctx_double |= bool(wa & wb)
+            always_reset |= bool(s.get("reset")) and bool(wa)
             var_in_always |= any(objs[oi]["k"] == "var" for oi, _, _ in s["acts"])
     return {"must_reject": bool(reasons), "reasons": reasons, "max_sites_per_obj": touched,
             "max_writers": max((len(x) for x in writers.values()), default=0),
-            "same_ctx_double": same_ctx_double, "var_in_always": var_in_always}
+            "same_ctx_double": same_ctx_double, "var_in_always": var_in_always, "always_reset": always_reset}
 
 
 # ------------------------------------------------------------------------------------------ check
@@ -720,7 +739,8 @@ def check(case):
         return out
     site_kinds = "+".join(sorted({s["k"] for s in case["sites"]}))
     other = 0
-    spec_drv = "must_reject" if exp["must_reject"] else "always+body" if exp["same_ctx_double"] else "none"
+    spec_drv = ("must_reject" if exp["must_reject"] else "always+body" if exp["same_ctx_double"]
+                else "always+reset" if exp["always_reset"] else "none")
     spec_var = "var_in_always" if exp["var_in_always"] else ("must_reject" if exp["must_reject"] else "none")
     proc_vars = {}
     for ei in d.entities.values():
